@@ -52,9 +52,7 @@ def setPwmEnabled (f : FanSt) (d : Dev) (value : Int) : Dev × Res Unit × List 
       let d' := if w == .applied then { d with mode := value } else d
       -- err == nil: read back
       let (cur, okRead) := fanGetPwmEnabled f d'
-      -- NB: the code that exists tests "stuck" only when the read-back *failed*
-      if okRead then (d', .ok (), [.wroteMode value true])
-      else if d'.modeRead == .errPerm then (d', .ok (), [.wroteMode value true])
+      if !okRead && d'.modeRead == .errPerm then (d', .ok (), [.wroteMode value true])
       else if cur ≠ value then (d', .err "stuck", [.wroteMode value true])
       else (d', .ok (), [.wroteMode value true])
   | _ => (d, .ok (), [])
@@ -123,7 +121,7 @@ def calculateTargetPwm (indef : Int) (w : World) (curve : Res Int) (now : Int) :
   | .panic s => (w, .panic s, [])
   | .ok lastSetPwm =>
   match curve with
-  | .err _ => (w, .panic "fatal-curve-evaluate", [])
+  | .err e => (w, .err e, [])
   | .panic s => (w, .panic s, [])
   | .ok cv =>
   let (loop', t0) := w.ctl.loop.cycle indef cv lastSetPwm now
@@ -138,13 +136,12 @@ def calculateTargetPwm (indef : Int) (w : World) (curve : Res Int) (now : Int) :
   | .ok (w, obs) =>
   if supports w.fan w.dev .rpmSensor
      && w.fan.neverStop && w.ctl.lastSet == some target
-     && le w.fan.getRpmAvg (ofInt 0) then
+     && decide (toInt indef w.fan.getRpmAvg ≤ 0) then
     if target ≥ maxPwm then (w, .err "stalled-at-max", obs ++ [.stalledAtMax])
     else
       let offset' := w.ctl.offset + 1
       let ctl := { w.ctl with offset := offset', increasedCount := w.ctl.increasedCount + 1 }
-      let fan := w.fan.setMin offset' true
-      let fan := fan.setRpmAvg indef (ofInt 1)
+      let fan := w.fan.setRpmAvg indef (ofInt 1)
       ({ w with ctl := ctl, fan := fan }, .ok (target + 1),
         obs ++ [.raised minPwm (minPwm + 1), .requested (target + 1)])
   else (w, .ok target, obs ++ [.requested target])
